@@ -301,7 +301,21 @@ def entry_case(args) -> Dict[str, Any]:
 def run_chunk(items):
     out = []
     for kind, args in items:
-        out.append(wrap_case(args) if kind == "wrap" else entry_case(args))
+        if kind == "wrap":
+            out.append(wrap_case(args))
+            continue
+        try:
+            out.append(entry_case(args))
+        except core.HarnessError:
+            raise
+        except Exception as e:
+            # the real Client raises (MessageManagerNotFound, ConnectionLost, ...) when the manager has died under it
+            import pyrtma.exceptions as X
+
+            if isinstance(e, X.ClientError) or "manager" in str(e).lower():
+                out.append({"problems": [{"prop": "C06", "kind": "entry-point-failed", "entry": args[0], "exc": f"{type(e).__name__}: {str(e)[:160]}"}], "skipped": False})
+            else:
+                raise
     return out
 
 
